@@ -564,6 +564,23 @@ func OracleC02(w *World, h *History) {
 					w.AddViolation("C02", "header-mismatch", fmt.Sprintf("rpc %d: grpc.Header target right after the terminal result = %s, handler set %s", id, mdString(ht), mdString(expHdr)), det("via", "grpc.Header", "values", utf), term.Ret)
 				}
 			}
+			if two, _ := ex["two_targets"].(bool); two {
+				// two locations of a kind were passed: both are filled alike
+				if p.OptHeader {
+					a, _ := ex["hdr_target"].(metadata.MD)
+					b, _ := ex["hdr_target0"].(metadata.MD)
+					if !mdEqual(a, b) {
+						w.AddViolation("C02", "header-mismatch", fmt.Sprintf("rpc %d: two grpc.Header locations were passed; right after the terminal result one holds %s, the other %s", id, mdString(b), mdString(a)), det("via", "grpc.Header-second-location", "values", utf), term.Ret)
+					}
+				}
+				if p.OptTrailer {
+					a, _ := ex["tlr_target"].(metadata.MD)
+					b, _ := ex["tlr_target0"].(metadata.MD)
+					if !mdEqual(a, b) {
+						w.AddViolation("C02", "trailer-mismatch", fmt.Sprintf("rpc %d: two grpc.Trailer locations were passed; right after the terminal result one holds %s, the other %s", id, mdString(b), mdString(a)), det("via", "grpc.Trailer-second-location", "values", utf), term.Ret)
+					}
+				}
+			}
 			if p.OptPeer {
 				if ps, _ := ex["peer_target"].(string); ps == "" && expectPeer(w, p) {
 					w.AddViolation("C02", "header-mismatch", fmt.Sprintf("rpc %d: grpc.Peer target was not filled in", id), det("via", "grpc.Peer"), term.Ret)
